@@ -224,7 +224,14 @@ func (*levelHookFam) play(l *Line, out *rec) error {
 		}
 		var buf bytes.Buffer
 		hl := zerolog.New(&buf).Level(zerolog.Level(-128)).Hook(lh)
-		hl.WithLevel(zerolog.Level(lv)).Msg("m")
+		func() {
+			defer func() {
+				if recover() != nil {
+					ok = false // a hook dispatch that dereferences an empty slot: recorded, not a dead player
+				}
+			}()
+			hl.WithLevel(zerolog.Level(lv)).Msg("m")
+		}()
 		if runs == nil {
 			runs = []int{}
 		}
